@@ -268,13 +268,17 @@ func c10(c *ctx) {
 							}
 						}
 						fired := make(chan struct{}, 1)
+						slowed := 0
 						w.s.Bess.SetOnCmd(func(n int, module, cmd string) bool {
 							if cmd == "delete" {
 								select {
 								case fired <- struct{}{}:
 								default:
 								}
-								time.Sleep(25 * time.Millisecond) // a slow datapath: the teardown takes a while
+								if slowed < 8 { // a datapath that is slow for a moment: the teardown takes about 200 ms longer
+									slowed++
+									time.Sleep(25 * time.Millisecond)
+								}
 							}
 							return true
 						})
